@@ -186,7 +186,13 @@ def scaling(camp):
         body = b"\0\0\0\x01" + struct.pack("!HHHHi", 0, 0, w, h, 0) + bytes(4 * w * h)
         data = hs + body + b"\x02"
         return [data[i:i + 64] for i in range(0, len(data), 64)]
-    for name, make, small in (("many one-byte messages in one chunk", bells, 100_000), ("one raw rectangle in 64-byte chunks", raw64, 150 * 1024)):
+    def rre(n_subs):
+        body = b"\0\0\0\x01" + struct.pack("!HHHHi", 0, 0, 64, 64, 2) + struct.pack("!I", n_subs) + b"\1\2\3\0"
+        body += (b"\4\5\6\0" + struct.pack("!HHHH", 1, 1, 2, 2)) * n_subs
+        data = hs + body + b"\x02"
+        return [data[i:i + 65536] for i in range(0, len(data), 65536)]
+    for name, make, small in (("many one-byte messages in one chunk", bells, 100_000), ("one raw rectangle in 64-byte chunks", raw64, 150 * 1024),
+                              ("one RRE rectangle with a long subrectangle table", rre, 20_000)):
         times = []
         for n in (small, 4 * small):
             chunks = make(n)
